@@ -98,3 +98,39 @@ def run_many(jobs_spec, config=None, jobs=None, chunk=20, quiet=True):
             raise RuntimeError("worker failed:\n" + payload)
         out[n].extend(payload)
     return out
+
+
+def _call(args):
+    modname, fname, payload = args
+    import importlib
+
+    try:
+        fn = getattr(importlib.import_module(modname), fname)
+        return ("ok", fn(payload))
+    except Exception:
+        return ("err", traceback.format_exc())
+
+
+def map_in_workers(modname, fname, payloads, config=None, jobs=None, quiet=True, shared=None):
+    """
+    Generic: run  module.fname(payload)  for every payload in forked workers that loaded `config` first.
+    `shared` (dict) is stored in pool._CTX before the fork so that workers can read big objects without pickling.
+    """
+    jobs = jobs or min(16, os.cpu_count() or 4)
+    if shared:
+        _CTX.update(shared)
+    ctx = multiprocessing.get_context("fork")
+    try:
+        if not payloads:
+            return []
+        with ctx.Pool(min(jobs, len(payloads)), initializer=_init, initargs=(config or {}, quiet)) as pool:
+            results = pool.map(_call, [(modname, fname, p) for p in payloads], chunksize=1)
+    finally:
+        for k in (shared or {}):
+            _CTX.pop(k, None)
+    out = []
+    for status, payload in results:
+        if status != "ok":
+            raise RuntimeError("worker failed:\n" + payload)
+        out.append(payload)
+    return out
